@@ -107,6 +107,10 @@ func (m *Machine) recordObl(st *State, fr *Frame, kind, detail string, goal *Ter
 	if m.reject != nil && kind != "reject" {
 		return
 	}
+	if strings.HasPrefix(kind, "safe.") && !hasTag(tags, "C06") {
+		// a run-time panic anywhere in the client is a C06 matter ("the client never panics")
+		tags = append(append([]string{}, tags...), "C06")
+	}
 	fname := relName(m.fn)
 	name := kind
 	if detail != "" {
